@@ -160,6 +160,7 @@ func (h *hist) block(idx uint32, ops []subop) {
 // quiet: the store is not summarised on this line (a GC may be running concurrently).
 func (h *hist) committed(idx uint32, ops []subop, root util.Uint256, cont map[string][]byte, quiet bool) {
 	cur := h.m.View()
+	h.countMoves(h.last, cur)
 	h.last = cur
 	if quiet {
 		h.line(fmt.Sprintf("blkq %d %s", idx, subStr(ops)), "r="+hex.EncodeToString(root[:]))
@@ -176,6 +177,48 @@ func (h *hist) committed(idx uint32, ops []subop, root util.Uint256, cont map[st
 		h.o.Count("block:empty-trie")
 	}
 	h.checkLatest(idx, cur, !quiet)
+}
+
+// countMoves records what happened to the records between two views (input distribution).
+func (h *hist) countMoves(prev, cur view) {
+	if !h.rcMode {
+		return
+	}
+	for k, v := range cur {
+		c, err := splitValue(true, v)
+		if err != nil {
+			continue
+		}
+		pv, ok := prev[k]
+		if !ok {
+			if c.active {
+				h.o.Count("rec:created")
+			}
+			continue
+		}
+		pc, err := splitValue(true, pv)
+		if err != nil {
+			continue
+		}
+		switch {
+		case !pc.active && c.active:
+			h.o.Count("rec:reactivated-inactive")
+		case pc.active && !c.active:
+			h.o.Count("rec:deactivated")
+		case pc.active && c.active && c.num > pc.num:
+			h.o.Count("rec:count-up")
+		case pc.active && c.active && c.num < pc.num:
+			h.o.Count("rec:count-down")
+		}
+		if c.active && c.num >= 3 {
+			h.o.Count("rec:count>=3")
+		}
+	}
+	for k := range prev {
+		if _, ok := cur[k]; !ok {
+			h.o.Count("rec:deleted")
+		}
+	}
 }
 
 // sync summarises the store after quiet blocks / observed collections.
@@ -241,6 +284,10 @@ func (h *hist) gc(g uint32) {
 	h.m.GC(g)
 	cur := h.m.View()
 	h.line(fmt.Sprintf("gc %d", g), storeObs(h.rcMode, h.prev, cur))
+	if len(cur) < len(h.last) {
+		h.o.Count("gc:removed-something")
+		h.o.Add("gc:records-removed", len(h.last)-len(cur))
+	}
 	h.prev, h.last = cur, cur
 	if !h.gcDone || g > h.gcAt {
 		h.gcAt = g
@@ -316,14 +363,20 @@ func (h *hist) checkLatest(idx uint32, cur view, withRetained bool) {
 	if !sameCont(w.cont, r.cont) {
 		h.fail("latest:content-mismatch", "height %d: walking the store from the root gives %d pairs, expected %d", idx, len(w.cont), len(r.cont))
 	}
-	shared := false
-	for _, n := range w.occ {
+	shared, sharedInner := false, false
+	for hs, n := range w.occ {
 		if n > 1 {
 			shared = true
+			if b := w.cells[hs].bytes; len(b) > 0 && b[0] != 2 {
+				sharedInner = true
+			}
 		}
 	}
 	if shared {
 		h.o.Count("block:with-shared-node")
+	}
+	if sharedInner {
+		h.o.Count("block:with-shared-branch-or-ext")
 	}
 	if !h.rcMode {
 		if withRetained {
@@ -415,11 +468,11 @@ func (h *hist) checkRetained(cur view, all bool) {
 		} else {
 			h.o.Count("stale-root-checked")
 		}
-		h.apiReads(ht, r, retained)
+		h.apiReads(ht, r, retained, all || !retained)
 	}
 }
 
-func (h *hist) apiReads(ht uint32, r *rec, retained bool) {
+func (h *hist) apiReads(ht uint32, r *rec, retained bool, emit bool) {
 	if isZero(r.root) {
 		return
 	}
@@ -438,7 +491,7 @@ func (h *hist) apiReads(ht uint32, r *rec, retained bool) {
 		} else if err == nil {
 			obs = hx.Hex(got)
 		}
-		if pi < 6 {
+		if pi < 4 && emit {
 			h.line(fmt.Sprintf("get %d %s", ht, hx.Hex(key)), obs)
 		}
 		switch {
